@@ -10,6 +10,7 @@ import (
 
 	conformancev1 "connectrpc.com/conformance/internal/gen/proto/go/connectrpc/conformance/v1"
 	"connectrpc.com/conformance/internal/verifkit"
+	"google.golang.org/protobuf/encoding/protojson"
 	"google.golang.org/protobuf/proto"
 	"google.golang.org/protobuf/reflect/protoreflect"
 	"google.golang.org/protobuf/types/known/anypb"
@@ -225,6 +226,7 @@ func TestVerifC19LoaderPadding(t *testing.T) {
 			name    string
 			offsets []*int
 			before  []int
+			others  []string // the message without request_data, as JSON (Any form)
 		}
 		var wants []want
 		var tcs []any
@@ -240,7 +242,27 @@ func TestVerifC19LoaderPadding(t *testing.T) {
 			var msgs, dirs []any
 			for m := 0; m < nmsg; m++ {
 				data := rng.Bytes(rng.Intn(20))
-				msgs = append(msgs, map[string]any{"@type": "type.googleapis.com/connectrpc.conformance.v1." + typ, "requestData": data})
+				msg := map[string]any{"@type": "type.googleapis.com/connectrpc.conformance.v1." + typ, "requestData": data}
+				// other fields differ from message to message: nothing but the padding field may change
+				if m == 0 && rng.Bool() {
+					if st == 1 || st == 2 {
+						msg["responseDefinition"] = map[string]any{"responseData": "AAEC", "responseHeaders": []any{map[string]any{"name": "x-first", "value": []string{"1"}}}}
+					} else {
+						msg["responseDefinition"] = map[string]any{"responseData": []string{"AAEC", "AwQ="}, "responseDelayMs": 7}
+					}
+				}
+				if st >= 4 && m == 0 {
+					msg["fullDuplex"] = st == 5
+				}
+				msgs = append(msgs, msg)
+				orig := map[string]any{}
+				for k2, v2 := range msg {
+					if k2 != "requestData" {
+						orig[k2] = v2
+					}
+				}
+				oj, _ := json.Marshal(orig)
+				wn.others = append(wn.others, string(oj))
 				wn.before = append(wn.before, len(data))
 				if rng.Chance(2, 3) {
 					off := verifkit.Pick(rng, []int{-1000, -1, 0, 1, 5, 1000})
@@ -281,6 +303,18 @@ func TestVerifC19LoaderPadding(t *testing.T) {
 						if uerr != nil {
 							rep.Violation("padding/loader/undecodable", uerr.Error(), w)
 							continue
+						}
+						// everything but request_data is as written in the suite
+						want, _ := anypb.New(m.ProtoReflect().New().Interface())
+						if uerr := protojson.Unmarshal([]byte(wn.others[i]), want); uerr == nil {
+							wm, _ := want.UnmarshalNew()
+							got := proto.Clone(m)
+							got.ProtoReflect().Clear(got.ProtoReflect().Descriptor().Fields().ByName("request_data"))
+							if !proto.Equal(wm, got) {
+								rep.Violation("padding/loader/other-fields-changed", fmt.Sprintf("%s message #%d: fields other than request_data differ from the suite file after expansion: %v vs %v", wn.name, i+1, verifkit.Trunc(fmt.Sprint(got), 200), verifkit.Trunc(fmt.Sprint(wm), 200)), w)
+							} else {
+								rep.Count("loader_other_fields_intact", 1)
+							}
 						}
 						size := proto.Size(m)
 						if wn.offsets[i] == nil {
